@@ -277,6 +277,8 @@ def gen_row(rnd, lay):
         keep = rnd.choice([max_col, max_col, max_col, rnd.randint(0, max_col)])
         cells = cells[:keep]
         truth = 'reject'
+        if regexk and lay['opt_last'] and keep == n - 1:
+            truth = None           # the optional last group does not take part: the tokeniser still yields n cells
     elif kind == 'long':
         cells = cells + [rnd.choice(['', 'extra', '9.99'])] * rnd.randint(1, 3)
         if regexk:
